@@ -75,6 +75,8 @@ def events_of(case):
             ev.append({"sleep": 4})
         if seg.get("close_stdin"):
             ev.append({"close_stdin": 1})
+        if seg.get("idle_hours"):
+            ev.append({"sleep": int(seg["idle_hours"] * 3600 * 1024)})
         b = seg_bytes(seg)
         pos = [0] + [p for p in seg.get("cuts", []) if 0 < p < len(b)] + [len(b)]
         for i in range(len(pos) - 1):
@@ -167,6 +169,15 @@ class Transport(Suite):
                     seg["cuts"] = sorted(rng.sample(bs, min(len(bs), rng.randrange(1, 4))))
                 segs.append(seg)
             out.append({"segments": segs})
+        # declared structure vs content inside batches (raw texts the dict builders cannot produce): null next to its
+        # alternative, duplicated members, a BOM before the array; and hours of idle time between the handshake and the batch
+        raw_batches = ['[{"jsonrpc":"2.0","id":1,"result":{"a":1},"error":null},{"jsonrpc":"2.0","id":2,"error":{"code":1,"message":"m"},"result":null}]',
+                       '[{"jsonrpc":"2.0","id":1,"id":2,"result":{}},{"jsonrpc":"2.0","method":"a","method":"b"}]',
+                       '\ufeff[{"jsonrpc":"2.0","method":"bom"}]', '[{"jsonrpc":"2.0","method":"m"}]\ufeff', ' [ ] ', '[\t{"jsonrpc":"2.0","method":"e\u0301"} , {"jsonrpc":"2.0","method":"\u00e9"}]',
+                       '[{"jsonrpc":"2.0","id":1,"result":null},{"id":null,"jsonrpc":"2.0","method":"m","params":null}]']
+        for v in ("2025-06-18", "2025-03-26"):
+            out.append({"segments": [{"set": v, "items": [{"text": t, "term": nl} for t in raw_batches] + [line(VALID[2])], "cuts": []}]})
+            out.append({"segments": [{"set": v, "items": [line(VALID[0])], "cuts": []}, {"idle_hours": 30, "items": mixed, "cuts": [11]}]})
         # the SAME rejection 2, 3, 4 times in a row, then a version with batching and the same batch again; a rejected
         # batch after a good message and before one
         b = line([VALID[0], INVALID[0], VALID[1]])
@@ -187,7 +198,7 @@ class Transport(Suite):
         # a host with DEBUG logging configured
         for i, c in enumerate(out):
             if i % 4 == 1:
-                c["debug"] = True
+                c["debug"] = "format" if i % 8 == 1 else True
         return out
 
     # ------------------------------------------------------------------ implementation
